@@ -7,7 +7,9 @@ package netflow9
 
 //@ pred nonfatal9(e error) = e != nil && typeid(e) == tyof(nonfatalError)
 //@ pred fatal9(e error) = e != nil && typeid(e) != tyof(nonfatalError)
-//@ pred wellFormed9(m MemCache) = len(m) == 32 && (forall i :: 0 <= i && i < 32 ==> m[i] != nil && !m[i].Templates.isnil)
+//@ pred wellFormed9(m MemCache) = len(m) == 32 && (forall j :: m.off <= j && j < m.off + 32 ==> m.arr[j] != nil && !m.arr[j].Templates.isnil)
+//@ uninterp cacheHas9(m MemCache, addr net.IP, id uint16) bool
+//@ uninterp cacheGet9(m MemCache, addr net.IP, id uint16) TemplateRecord
 
 //@ pred phdrAt(h PacketHeader, b []byte, p mathint) = h.Version == be16(b, p) && h.Count == be16(b, p+2)
 //@     && h.SysUpTime == be32(b, p+4) && h.UNIXSecs == be32(b, p+8) && h.SeqNum == be32(b, p+12) && h.SrcID == be32(b, p+16)
@@ -108,7 +110,11 @@ package netflow9
 //@   ensures [class] err != nil ==> nonfatal9(err) || fatal9(err)
 //@   ensures [records] len(msg.DataSets) >= old(len(msg.DataSets)) && len(msg.DataSets) - old(len(msg.DataSets)) <= d.reader.count - old(d.reader.count)
 //@   ensures msg.Header == old(msg.Header) && msg.AgentID == old(msg.AgentID)
-//@   modifies d.reader.data, d.reader.count, msg.DataSets
+//@   ensures [kept] forall k :: 0 <= k && k < old(len(msg.DataSets)) ==> msg.DataSets[k] == old(msg.DataSets)[k]
+//@   ensures [reserved] old(len(d.reader.data)) >= 4 && 4 <= be16(d.reader.base, old(d.reader.count)) && be16(d.reader.base, old(d.reader.count)) <= 255 ==> len(msg.DataSets) == old(len(msg.DataSets))
+//@   ensures [unknown] old(len(d.reader.data)) >= 4 && be16(d.reader.base, old(d.reader.count)) > 255 && !cacheHas9(old(mem), d.raddr, be16(d.reader.base, old(d.reader.count))) ==> len(msg.DataSets) == old(len(msg.DataSets)) && err != nil
+//@   ensures [tplset] old(len(d.reader.data)) >= 4 && be16(d.reader.base, old(d.reader.count)) <= 1 ==> len(msg.DataSets) == old(len(msg.DataSets))
+//@   modifies d.reader.data, d.reader.count, msg.DataSets, contents(mem)
 //@   loop 1
 //@     invariant [rdr] rdr(d.reader) && d.reader.base == old(d.reader.base)
 //@     invariant [raddr] d.raddr == old(d.raddr) && msg != nil && setHeader != nil
@@ -117,6 +123,10 @@ package netflow9
 //@     invariant setHeader.Length == be16(d.reader.base, startCount+2) && setHeader.FlowSetID == be16(d.reader.base, startCount) && setHeader.Length >= 4
 //@     invariant len(msg.DataSets) >= old(len(msg.DataSets)) && len(msg.DataSets) - old(len(msg.DataSets)) <= d.reader.count - startCount - 4
 //@     invariant err == nil || err == reader.errReader || nonfatal9(err)
+//@     invariant [kept] forall k :: 0 <= k && k < old(len(msg.DataSets)) ==> msg.DataSets[k] == old(msg.DataSets)[k]
+//@     invariant [nodata] setHeader.FlowSetID <= 1 || (4 <= setHeader.FlowSetID && setHeader.FlowSetID <= 255) ==> len(msg.DataSets) == old(len(msg.DataSets))
+//@     invariant [unk] setHeader.FlowSetID > 255 && !cacheHas9(old(mem), d.raddr, setHeader.FlowSetID) ==> err != nil && len(msg.DataSets) == old(len(msg.DataSets))
+//@     invariant [wf] wellFormed9(mem)
 //@     decreases len(d.reader.data) + (err == nil ? 1 : 0)
 
 //@ func (*Decoder).Decode
@@ -124,7 +134,7 @@ package netflow9
 //@   ensures (len(old(d.reader.base)) < 20 || be16(old(d.reader.base), 0) != 9) ==> result == nil && err != nil
 //@   ensures result != nil ==> phdrAt(result.Header, old(d.reader.base), 0)
 //@   ensures [records] result != nil ==> len(result.DataSets) <= len(old(d.reader.base))
-//@   modifies d.reader.data, d.reader.count
+//@   modifies d.reader.data, d.reader.count, contents(mem)
 //@   loop 1
 //@     invariant rdr(d.reader) && d.reader.base == old(d.reader.base) && msg != nil && wellFormed9(mem) && d.reader.count >= 20
 //@     invariant phdrAt(msg.Header, d.reader.base, 0)
@@ -145,6 +155,10 @@ package netflow9
 
 //@ func (*MemCache).insert
 //@   requires m != nil && wellFormed9(m)
+//@   ensures wellFormed9(m) && len(m) == old(len(m))
+//@   modifies contents(m)
 
 //@ func (*MemCache).retrieve
 //@   requires m != nil && wellFormed9(m)
+//@   ensures result1 == cacheHas9(m, addr, id) && result == cacheGet9(m, addr, id)
+//@   opt trustpost cacheHas9/cacheGet9 are the abstract view of the cache; their relation to the shard maps is the subject of C04
